@@ -116,7 +116,9 @@ func (tp *twoPass) run(t *testing.T) {
 	tp.rec.Note("native_batch_seconds", time.Since(start).Seconds())
 	fmt.Printf("VERIF-TIME shard %d: %d units, batch %.1fs\n", env.Shard, len(units), time.Since(start).Seconds())
 	start2 := time.Now()
-	defer func() { fmt.Printf("VERIF-TIME shard %d: pass2 %.1fs (%d single builds)\n", env.Shard, time.Since(start2).Seconds(), tp.nsingle) }()
+	defer func() {
+		fmt.Printf("VERIF-TIME shard %d: pass2 %.1fs (%d single builds)\n", env.Shard, time.Since(start2).Seconds(), tp.nsingle)
+	}()
 	for _, r := range tp.cache {
 		if r.BuildErr != "" {
 			t.Fatalf("HARNESS: generated program does not build natively:\n%s", r.BuildErr)
